@@ -5,7 +5,7 @@ PROPS["C19"] = dict(
           "layouts to degree 60; harmonic sums: L = 1, 2, 3 coefficient sets, FULL and SCHMIDT, first set truncated below its layout, secondary sets "
           "stored with a larger layout degree than used (nmx_l < N_l), empty secondary sets, multipliers tau in {1, -1, 0.5, 2, 0, random}; coefficient "
           "vectors: uniform, wide dynamic range 10^[-8, 8] with both signs, geophysical decay, sparse, a single non-zero coefficient; points: r in [a, 1.2a], "
-          "r < a, r up to 1e6 a, on the polar axis, 1e-14..1e-3 degrees from it, equatorial plane, principal meridians; degree <= 12 with the Lean model, <= 40 "
+          "r < a, r up to 1e6 a, on the polar axis, 1e-14..1e-3 degrees from it, equatorial plane, principal meridians; degree <= 12 with the Lean models (value, gradient, circle with and without gradient), <= 40 "
           "quick, <= 360 thorough (oracle only); synthetic magnetic model files (1-4 epochs of different sizes, with/without constant block, both "
           "normalisations, times inside / before / after / exactly on / one ulp before epoch boundaries / 1000 years away, truncated loading) and gravity "
           "model files (ModelMass = or != ReferenceMass, several flattenings, height offset, correction multiplier, with/without geoid-correction block, "
@@ -16,34 +16,49 @@ PROPS["C19"] = dict(
                 "gradient vs central differences of the defining sum": "truncation bound 1e-12 (N+3)^2 relative + 1e-9",
                 "circle vs point": "min(1e-12 x max(1,(N+1)/32), (32 + 2(M+1)^2) x 1.2e-16) x sum|terms|",
                 "coefficient storage / accessors vs Lean model": "exact",
-                "Value<false, norm, L> vs Lean formula model in binary64": "same tolerance as against the defining sum",
+                "Value<false, norm, L>, Value<true, norm, L> (value + Cartesian gradient), Circle<gradp> + CircularEngine::Value vs Lean formula models in binary64": "same tolerances as against the defining sum (value: sum|terms| of the value; gradient: sum|terms| of the gradient components, with the (N+2)/r derivative scale in the floors)",
+                "normal potential U vs Lean closed forms (oblate, prolate, sphere), FlatteningToJ2 vs model, residual of the Newton model at the f returned by J2ToFlattening": "16-64 ulp of the terms plus the conditioning of q(u) = Q z^3 (two terms of size 3/z cancel)",
                 "magnetic field / rate vs field of the time-interpolated coefficients": "1e-12 x sum|terms| (terms weighted by the interpolation weights)",
                 "FieldGeocentric vs Lean time-interpolation model on the implementation's own per-epoch gradients": "1e-14 relative to the sum of the magnitudes of the combined terms",
                 "gravity W, V, g, T, delta, geoid height, anomaly": "1e-12 x sum|terms| of the respective harmonic sum (+ normal-field zonal terms beyond the model degree for T = W - U)",
                 "GravityCircle / MagneticCircle vs model": "64 x 1.2e-16 x (M + 2) x sum|terms|",
                 "normal gravity": "U: 64 ulp of GM/r + omega^2 (a^2 + r^2); gradient vs differenced closed form 1e-9; div(gamma) - 2 omega^2: 1e-6 (GM/r^3 + omega^2); surface gravity, J2, J4, J6, conversions: 1e-13 .. 1e-12 relative"},
     level_text=("Theorems (all inputs): the backward Clenshaw recurrence with index-dependent alpha_k, beta_k over any commutative ring returns sum c_k F_k for every "
-                "three-term recurrence F (clenshaw_general, clenshaw_tail, clenshaw_outer: the two-family form used for cos/sin m lambda); the model of "
-                "SphericalEngine::Value<false, norm, L> (the same term the driver executes in binary64 against SphericalHarmonic, SphericalHarmonic1, "
-                "SphericalHarmonic2) equals the double sum over m and n of the coefficients times the functions generated by the coded inner and outer "
-                "recurrences (value_is_series_partial, value_eq_valuePt, innerSum_eq); index(n, m) = mN - m(m-1)/2 + n is injective on the stored triangle, has range [0, Csize) and is "
+                "three-term recurrence F (clenshaw_general, clenshaw_tail, clenshaw_outer: the two-family form used for cos/sin m lambda). VALUE IS THE SERIES, IN FULL: "
+                "the textbook fully normalised and Schmidt semi-normalised associated Legendre functions are defined over R by their standard recurrences with "
+                "Real.sqrt (Proofs/Harmonic.lean: anm, bnm, sectoral, legendre, Pbar; low degrees checked in legendre_low); the inner recurrence as coded (A, B with "
+                "root[k] = sqrt k) generates q^l P_{m+l,m}/P_mm and the outer one q^m P_mm cos/sin m lambda (inner_recurrence_is_legendre, "
+                "outer_recurrence_is_sectoral: identities between square roots of integer products), hence the model of SphericalEngine::Value<false, norm, L> -- the same term "
+                "the driver executes in binary64 against SphericalHarmonic, SphericalHarmonic1, SphericalHarmonic2 -- equals (1/scale) sum_m sum_n (C~nm cos m lambda + "
+                "S~nm sin m lambda) (a/r)^(n+1) Pnm(cos theta) with C~ = scale * combined coefficients (value_is_series, value_is_series_alg, value_is_series_unscaled, "
+                "value_is_series_partial, value_eq_valuePt, innerSum_eq). GRADIENT: the model of Value<true, norm, L> (inner sums wr, wt, outer sums vr, vt, vl, Cartesian "
+                "assembly) returns the same value (sphPt_v) and its spherical components are the termwise derivatives of that series: vr with (a/r)^(n+1) -> "
+                "-(n+1)(a/r)^(n+1)/r, vl = 1/(r u) x [C cos + S sin -> m(S cos - C sin)], vt = 1/r x [Pnm -> dPnm/dtheta] (grad_r_is_series, grad_lambda_is_series, "
+                "grad_theta_is_series with clenD_sum: Clenshaw summation of the differentiated recurrence), and as derivatives in the analytic sense: x -> valuePt(...) is "
+                "differentiable in r, theta, lambda with derivative vr, r vt, r u vl (grad_r_is_derivative, grad_theta_is_derivative, grad_lambda_is_derivative; u = sin theta != 0, r != 0); "
+                "the Cartesian assembly is the orthogonal rotation of the spherical frame (rotate_orthogonal). CIRCLE: the model of SphericalEngine::Circle<gradp> + "
+                "CircularEngine::Value equals the point evaluation as the same real number, value and all gradient components, for every longitude (circle_eq_value, "
+                "circle_eq_value_nograd, circle_eq_point, circle_is_series). STORAGE: index(n, m) = mN - m(m-1)/2 + n is injective on the stored triangle, has range [0, Csize) and is "
                 "onto it, Csize is the number of stored pairs (index_injective, index_range, index_contiguous, index_surjective, csize_count); the "
-                "range-checked accessors return the stored coefficient iff n <= nmx and m <= mmx and 0 otherwise (truncation_selects, combC_two); "
-                "magnetic coefficients/fields are linear in time within an epoch, continuous across epoch boundaries and extrapolated with the first / "
-                "last epoch (time_interp, time_linear, time_continuous, time_extrapolation, epochIndex_spec); the normal potential is constant on the "
-                "reference ellipsoid, U(b, beta) = GM/E atan(E/b) + omega^2 a^2/3 for every beta (normal_U_const); FlatteningToJ2 is Heiskanen-Moritz "
-                "eq. 2-90 (flatteningToJ2_is_HM). Correspondence: the Int model of coeff (index, sizes, constructor checks, all accessors) exactly, the "
-                "formula model of Value for L = 1, 2, 3 and both normalisations, the time-interpolation model and the normal-potential / J2 closed forms "
-                "against the implementation. Oracles on the implementation (long double, independent of the library): the defining double sum with "
+                "range-checked accessors return the stored coefficient iff n <= nmx and m <= mmx and 0 otherwise (truncation_selects, combC_two). MAGNETIC TIME: "
+                "fields are linear in time within an epoch, continuous across epoch boundaries and extrapolated with the first / "
+                "last epoch (time_interp, time_linear, time_continuous, time_extrapolation, epochIndex_spec). NORMAL GRAVITY: the normal potential is constant on the "
+                "reference ellipsoid for oblate, prolate and spherical bodies (normal_U_const, normal_U_const_prolate, normal_U_const_sphere); FlatteningToJ2 is Heiskanen-Moritz "
+                "eq. 2-90 (flatteningToJ2_is_HM); a fixed point of the Newton step of J2ToFlattening is a zero of its residual and the flattening returned there satisfies "
+                "FlatteningToJ2(f) = J2 (newton_fixed_point, j2Flattening_spec, j2_fixed_point_inverts, j2_newton_fixed_point_inverts). Correspondence: the Int model of coeff "
+                "(index, sizes, constructor checks, all accessors) exactly; the formula models of Value<false>, Value<true> (value and Cartesian gradient), Circle<false/true> + "
+                "CircularEngine::Value at the implementation's (p, sin lon, cos lon) for L = 1, 2, 3 and both normalisations; the time-interpolation model; the normal-potential "
+                "closed forms (oblate, prolate, sphere), FlatteningToJ2, and the Newton residual at the flattening returned by J2ToFlattening. Oracles on the implementation (long double, "
+                "independent of the library): the defining double sum with "
                 "forward-recurrence normalised Legendre functions and analytic derivatives for value, gradient and circles; gradient = central "
                 "differences of the value; magnetic and gravity models loaded from synthetic files reproduce the field of the file's coefficients (time "
                 "interpolation/extrapolation, constant term, rotation to east-north-up, H F D I and their rates, V, W, g, T = W - U, disturbance, geoid "
                 "height, spherical anomaly), circle objects member by member; NormalGravity: U constant on the ellipsoid, grad U = returned gravity, "
-                "div gamma = 2 omega^2, Somigliana, J2/J4/J6, J2 <-> f. Partial: the identification of the functions generated by the coded recurrences "
-                "with the standard normalised associated Legendre functions (square-root identities), the gradient part of Value, Circle and the "
-                "prolate/sphere branches of NormalGravity are covered by the oracles only; no floating-point error bound is proved."),
-    level_note=("hand-written models (Model/Harmonic.lean) of SphericalEngine::coeff, Value<false, norm, L>, MagneticModel::FieldGeocentric's time handling and "
-                "NormalGravity's closed forms; nothing is regenerated from the source (no tables in this property): the tie to the current source is the "
+                "div gamma = 2 omega^2, Somigliana, J2/J4/J6, J2 <-> f. Not proved: the chain rule from (r, theta, lambda) to (x, y, z) (only the orthogonality of the assembly), "
+                "convergence of the Newton iteration of J2ToFlattening (only its fixed points), the prolate branch of J2ToFlattening/FlatteningToJ2, the general (off-ellipsoid) "
+                "identification of NormalGravity::V0's coordinate computation with (u, beta), GravityModel/MagneticModel file handling (oracles only); no floating-point error bound is proved."),
+    level_note=("hand-written models (Model/Harmonic.lean) of SphericalEngine::coeff, Value<false/true, norm, L>, Circle<gradp, norm, L>, CircularEngine::Value, "
+                "MagneticModel::FieldGeocentric's time handling, NormalGravity's closed forms (oblate, prolate, sphere) and the Newton residual of J2ToFlattening; nothing is regenerated from the source (no tables in this property): the tie to the current source is the "
                 "correspondence run; synthetic but format-valid .wmm/.wmm.cof and .egm/.egm.cof files written under _cache/tmp; oracle in x87 long double"),
     technique="Lean 4 proofs (ring-generic Clenshaw, Int arithmetic for the packed storage, real closed forms) + binary64/Int execution of the same definitions against the implementation + long-double defining-sum oracle",
     assumptions=["the tolerance 1e-12 x sum|terms| (degree <= 32, linear growth beyond) is the accuracy class assumed in DESIGN.md; the library documents no figure for the harmonic sums",
